@@ -168,42 +168,202 @@ theorem callSet_safe (t : TU) (h : (t.calls.all fun c => XmlSafe c.name) = true)
   obtain ⟨c, hc, rfl⟩ := List.mem_map.mp hn
   exact List.all_eq_true.mp h c hc
 
+def unusedElems (t : TU) : List Elem := t.decls.map fdElem ++ (callSet t).map fcallElem
+
+/-- an empty summary text means: no definitions, no uses -/
+theorem collectTU_of_empty (c : Collected) (t : TU) (he : analyzerInfo t = []) : collectTU c t = c := by
+  rw [analyzerInfo_eq, List.append_eq_nil_iff] at he
+  have hd : t.decls = [] := by
+    cases hdl : t.decls with
+    | nil => rfl
+    | cons d r =>
+      rw [hdl, List.flatMap_cons, List.append_eq_nil_iff] at he
+      have := he.1.1
+      unfold declText at this
+      rw [show "    <functiondecl".toList = ' ' :: "   <functiondecl".toList from rfl] at this
+      simp at this
+  have hcs : callSet t = [] := by
+    cases hcl : callSet t with
+    | nil => rfl
+    | cons n r =>
+      rw [hcl, List.flatMap_cons, List.append_eq_nil_iff] at he
+      have := he.2.1
+      unfold callText at this
+      rw [show "    <functioncall".toList = ' ' :: "   <functioncall".toList from rfl] at this
+      simp at this
+  simp [collectTU, hd, hcs]
+
+/-- the handler on the `<FileInfo check="CheckUnusedFunctions">` element of a translation unit -/
+theorem collectStep_unused (src : Str) (c : Collected) (t : TU) (h : t.TextOk = true) :
+    collectStep src (.ok c) ("CheckUnusedFunctions".toList,
+      Elem.mk "FileInfo".toList [("check".toList, "CheckUnusedFunctions".toList)] (unusedElems t)) = .ok (collectTU c t) := by
+  simp only [TU.TextOk, Bool.and_eq_true] at h
+  have hu : isUnusedCheck "CheckUnusedFunctions".toList = true := by decide
+  simp only [collectStep, hu, if_true, Elem.kids, unusedElems]
+  rw [loadUnusedKids_append, load_decls src _ _ h.1]
+  simp only
+  rw [load_calls src _ _ (callSet_safe t h.2)]
+  rfl
+
+theorem collectStep_other (src : Str) (c : Collected) (ce : Str × Elem) (h : isUnusedCheck ce.1 = false) :
+    collectStep src (.ok c) ce = .ok c := by
+  simp [collectStep, h]
+
+theorem collect_fold_other (src : Str) (c : Collected) : ∀ l : List (Str × Elem), (∀ ce ∈ l, isUnusedCheck ce.1 = false) →
+    l.foldl (collectStep src) (.ok c) = .ok c := by
+  intro l
+  induction l with
+  | nil => intro _; rfl
+  | cons x r ih =>
+    intro h
+    rw [List.foldl_cons, collectStep_other src c x (h x (by simp))]
+    exact ih (fun y hy => h y (by simp [hy]))
+
 /-- the unused-function summary of a translation unit, written and read back through the cache file -/
 theorem collectText_analyzerInfo (src : Str) (c : Collected) (t : TU) (h : t.TextOk = true) :
     collectText src c (analyzerInfo t) = .ok (collectTU c t) := by
-  simp only [TU.TextOk, Bool.and_eq_true] at h
-  unfold collectText
+  unfold collectText collectFile
   rw [loadFile_single 1 "CheckUnusedFunctions".toList (analyzerInfo t) _ (by decide) (analyzerInfo_renders t)]
   simp only
   by_cases he : analyzerInfo t = []
-  · -- empty text: no definitions, no uses
-    simp only [he, if_true, List.foldl_nil]
-    rw [analyzerInfo_eq, List.append_eq_nil_iff] at he
-    have hd : t.decls = [] := by
-      cases hdl : t.decls with
-      | nil => rfl
-      | cons d r =>
-        rw [hdl, List.flatMap_cons, List.append_eq_nil_iff] at he
-        have := he.1.1
-        unfold declText at this
-        rw [show "    <functiondecl".toList = ' ' :: "   <functiondecl".toList from rfl] at this
-        simp at this
-    have hcs : callSet t = [] := by
-      cases hcl : callSet t with
-      | nil => rfl
-      | cons n r =>
-        rw [hcl, List.flatMap_cons, List.append_eq_nil_iff] at he
-        have := he.2.1
-        unfold callText at this
-        rw [show "    <functioncall".toList = ' ' :: "   <functioncall".toList from rfl] at this
-        simp at this
-    simp [collectTU, hd, hcs]
+  · simp only [he, if_true, List.foldl_nil]
+    rw [collectTU_of_empty c t he]
   · rw [if_neg he, List.foldl_cons, List.foldl_nil]
-    have hu : isUnusedCheck "CheckUnusedFunctions".toList = true := by decide
-    simp only [hu, if_true, Elem.kids]
-    rw [loadUnusedKids_append, load_decls src _ _ h.1]
-    simp only
-    rw [load_calls src _ _ (callSet_safe t h.2)]
+    exact collectStep_unused src c t h
+
+/-- the driver's fold over all translation units (each summary through its text) = the text-free collection -/
+theorem collectViaText_eq : ∀ (tus : List TU) (c : Collected), (∀ t ∈ tus, t.TextOk = true) →
+    tus.foldl textStep (Coll.ok c) = .ok (tus.foldl collectTU c)
+  | [], _, _ => rfl
+  | t :: r, c, h => by
+    simp only [List.foldl_cons, textStep]
+    rw [collectText_analyzerInfo [] c t (h t List.mem_cons_self)]
+    exact collectViaText_eq r _ (fun t ht => h t (List.mem_cons_of_mem _ ht))
+
+/-! ## the real cache file: five whole-program summaries + the unused-function summary -/
+
+def infos4 (simp : Str → Str) (t : TUSummary) (u : TU) : List (Str × Str × List Elem) :=
+  t.infos3 simp ++ [("CheckUnusedFunctions".toList, analyzerInfo u, unusedElems u)]
+
+def kidsOf (x : Str × Str × List Elem) : List (Str × Elem) :=
+  if x.2.1 = [] then [] else [(x.1, Elem.mk "FileInfo".toList [("check".toList, x.1)] x.2.2)]
+
+theorem loadFile_storeAll (simp : Str → Str) (hash : Nat) (t : TUSummary) (u : TU) (h : t.Ok simp = true) :
+    loadFile (storeAll simp hash t u)
+      = .ok ((t.infos3 simp).flatMap kidsOf ++ kidsOf ("CheckUnusedFunctions".toList, analyzerInfo u, unusedElems u)) := by
+  have hi : ∀ x ∈ infos4 simp t u, CheckNameOk x.1 = true ∧ Renders 1 x.2.1 x.2.2 := by
+    intro x hx
+    rcases List.mem_append.mp hx with h1 | h1
+    · exact infos3_renders simp t h x h1
+    · simp only [List.mem_cons, List.mem_nil_iff, or_false] at h1
+      subst h1
+      exact ⟨show CheckNameOk "CheckUnusedFunctions".toList = true by decide, analyzerInfo_renders u⟩
+  have hp := storeFile_parse (h := 1) hash (infos4 simp t u) hi (by decide)
+  have e0 : t.infos simp = (t.infos3 simp).map fun x => (x.1, x.2.1) := rfl
+  have e : storeAll simp hash t u = storeFile hash ((infos4 simp t u).map fun x => (x.1, x.2.1)) := by
+    unfold storeAll infos4
+    rw [List.map_append, e0]
     rfl
+  rw [e]
+  unfold loadFile
+  rw [hp]
+  have hn : (Elem.mk "analyzerinfo".toList [("hash".toList, showNat hash)] (infoElems (infos4 simp t u))).name = "analyzerinfo".toList := rfl
+  simp only [hn, ne_eq, not_true_eq_false, if_false, Elem.kids]
+  rw [fileInfoKids_infoElems _ (fun x hx => (hi x hx).1)]
+  unfold infos4
+  rw [List.flatMap_append, List.flatMap_cons, List.flatMap_nil, List.append_nil]
+  rfl
+
+theorem checkKind_unused : checkKind "CheckUnusedFunctions".toList = 5 := by decide
+
+theorem handleInfo_unused (wp : WholeProgram) (e : Elem) : handleInfo wp ("CheckUnusedFunctions".toList, e) = some wp := by
+  simp only [handleInfo, checkKind_unused]
+
+/-- the CTU handler ignores the unused-function element -/
+theorem handleInfos_kidsOf_unused (wp : WholeProgram) (text : Str) (es : List Elem) :
+    handleInfos (kidsOf ("CheckUnusedFunctions".toList, text, es)) wp = some wp := by
+  unfold kidsOf
+  by_cases he : text = []
+  · rw [if_pos he]; rfl
+  · rw [if_neg he, handleInfos_one, handleInfo_unused]
+
+theorem kidsOf_fst (x : Str × Str × List Elem) (ce : Str × Elem) (h : ce ∈ kidsOf x) : ce.1 = x.1 := by
+  unfold kidsOf at h
+  by_cases he : x.2.1 = []
+  · rw [if_pos he] at h; exact absurd h (List.not_mem_nil)
+  · rw [if_neg he] at h
+    rw [List.mem_singleton.mp h]
+
+/-- the unused-function handler ignores the five other elements -/
+theorem infos3_not_unused (simp : Str → Str) (t : TUSummary) : ∀ ce ∈ (t.infos3 simp).flatMap kidsOf, isUnusedCheck ce.1 = false := by
+  intro ce hce
+  obtain ⟨x, hx, hm⟩ := List.mem_flatMap.mp hce
+  rw [kidsOf_fst x ce hm]
+  simp only [TUSummary.infos3, List.mem_cons, List.mem_nil_iff, or_false] at hx
+  rcases hx with rfl | rfl | rfl | rfl | rfl
+  · exact (show isUnusedCheck "ctu".toList = false by decide)
+  · exact (show isUnusedCheck "Bounds checking".toList = false by decide)
+  · exact (show isUnusedCheck "Class".toList = false by decide)
+  · exact (show isUnusedCheck "Null pointer".toList = false by decide)
+  · exact (show isUnusedCheck "Uninitialized variables".toList = false by decide)
+
+/-- **both readers on the real cache file** -/
+theorem storeAll_both (simp : Str → Str) (hash : Nat) (t : TUSummary) (u : TU) (h : t.Ok simp = true) (hu : u.TextOk = true)
+    (wp : WholeProgram) (src : Str) (c : Collected) :
+    fromBuildDir [storeAll simp hash t u] wp = some (addInMemory wp t)
+    ∧ collectFile src c (storeAll simp hash t u) = .ok (collectTU c u) := by
+  constructor
+  · simp only [fromBuildDir, loadFile_storeAll simp hash t u h]
+    rw [handleInfos_append]
+    have h5 := handle_store simp t h wp
+    have e5 : ((t.infos3 simp).flatMap fun x => if x.2.1 = [] then [] else [(x.1, Elem.mk "FileInfo".toList [("check".toList, x.1)] x.2.2)])
+        = (t.infos3 simp).flatMap kidsOf := rfl
+    rw [e5] at h5
+    rw [h5, Option.bind_some, handleInfos_kidsOf_unused]
+  · unfold collectFile
+    rw [loadFile_storeAll simp hash t u h]
+    simp only
+    rw [List.foldl_append, collect_fold_other src c _ (infos3_not_unused simp t)]
+    unfold kidsOf
+    by_cases he : analyzerInfo u = []
+    · rw [if_pos he, List.foldl_nil, collectTU_of_empty c u he]
+    · rw [if_neg he, List.foldl_cons, List.foldl_nil]
+      exact collectStep_unused src c u hu
+
+theorem collectFiles_storeAll (simp : Str → Str) : ∀ (l : List (Nat × TUSummary × TU)) (c : Collected),
+    (∀ x ∈ l, x.2.1.Ok simp = true ∧ x.2.2.TextOk = true) →
+    (l.map fun x => storeAll simp x.1 x.2.1 x.2.2).foldl fileStep (Coll.ok c)
+      = .ok ((l.map (·.2.2)).foldl collectTU c)
+  | [], _, _ => rfl
+  | x :: r, c, h => by
+    simp only [List.map_cons, List.foldl_cons, fileStep]
+    have hx := h x List.mem_cons_self
+    rw [(storeAll_both simp x.1 x.2.1 x.2.2 hx.1 hx.2 WholeProgram.empty [] c).2]
+    exact collectFiles_storeAll simp r _ (fun y hy => h y (List.mem_cons_of_mem _ hy))
+
+theorem fromBuildDir_storeAll (simp : Str → Str) : ∀ (l : List (Nat × TUSummary × TU)) (wp : WholeProgram),
+    (∀ x ∈ l, x.2.1.Ok simp = true ∧ x.2.2.TextOk = true) →
+    fromBuildDir (l.map fun x => storeAll simp x.1 x.2.1 x.2.2) wp = some ((l.map (·.2.1)).foldl addInMemory wp)
+  | [], _, _ => rfl
+  | x :: r, wp, h => by
+    have hx := h x List.mem_cons_self
+    have h1 := (storeAll_both simp x.1 x.2.1 x.2.2 hx.1 hx.2 wp [] ⟨[], []⟩).1
+    simp only [fromBuildDir, List.map_cons] at h1 ⊢
+    cases hl : loadFile (storeAll simp x.1 x.2.1 x.2.2) with
+    | ok l =>
+      rw [hl] at h1
+      simp only at h1 ⊢
+      cases hh : handleInfos l wp with
+      | none => rw [hh] at h1; simp at h1
+      | some wp' =>
+        rw [hh] at h1
+        simp only [Option.some.injEq] at h1
+        simp only [List.foldl_cons]
+        rw [h1]
+        exact fromBuildDir_storeAll simp r _ (fun y hy => h y (List.mem_cons_of_mem _ hy))
+    | loadError => rw [hl] at h1; simp at h1
+    | noRoot => rw [hl] at h1; simp at h1
+    | badRoot => rw [hl] at h1; simp at h1
+    | unmodelled => rw [hl] at h1; simp at h1
 
 end Cppcheck.Unused
